@@ -13,6 +13,21 @@ pub open spec fn verdict_of(reply: SendReply, height: u32) -> ConfirmationStatus
         SendReply::Other => ConfirmationStatus::Rejected(-257i32),
     }
 }
+// the node answered this submission with a rejection (not "accepted", not "already in the chain")
+pub open spec fn reply_rejects(reply: SendReply) -> bool {
+    match reply { SendReply::Rpc(code) => code != -27, SendReply::Other => true, _ => false }
+}
+// some submission of a transaction with this id was rejected by the node
+pub open spec fn rejected_call(calls: Seq<(Transaction, SendReply)>, t: Txid) -> bool {
+    exists|i: int| 0 <= i < calls.len() && txid_spec((#[trigger] calls[i]).0) == t && reply_rejects(calls[i].1)
+}
+pub proof fn lemma_rejected_call_extends(c0: Seq<(Transaction, SendReply)>, c1: Seq<(Transaction, SendReply)>, t: Txid)
+    requires rejected_call(c0, t), c1.len() >= c0.len(), c1.subrange(0, c0.len() as int) == c0
+    ensures rejected_call(c1, t)
+{
+    let i = choose|i: int| 0 <= i < c0.len() && txid_spec((#[trigger] c0[i]).0) == t && reply_rejects(c0[i].1);
+    assert(c1.subrange(0, c0.len() as int)[i] == c1[i]);
+}
 // the calls appended by one `send_transaction(tx)`: n >= 1 calls, all for `tx`, all but the last answered
 // by a transport error (retried), the last one answered by something else
 pub open spec fn sent_only(old_calls: Seq<(Transaction, SendReply)>, new_calls: Seq<(Transaction, SendReply)>, tx: Transaction) -> bool {
